@@ -17,6 +17,19 @@ MEM_SIZES = {'m8': 1, 'm16': 2, 'm32': 4, 'm64': 8, 'm80': 10, 'm128': 16, 'm256
              'm16int': 2, 'm32int': 4, 'm64int': 8, 'm32fp': 4, 'm64fp': 8, 'm80fp': 10, 'm80bcd': 10, 'm80dec': 10}
 IMM_SIZES = {'imm8': 1, 'imms8': 1, 'immu8': 1, 'imm16': 2, 'immu16': 2, 'imm32': 4, 'imms32': 4, 'immu32': 4, 'imm64': 8}
 
+# Database records that disagree with the SDM (checked by hand); the SDM value is used. Listed in DESIGN.md.
+DB_ERRATA = {
+    ('vmovupd', 'VEX'): dict(pp=1),    # db says NP; SDM: VEX.66.0F 10/11
+    ('vmovups', 'VEX'): dict(pp=0),    # db says 66; SDM: VEX.NP.0F 10/11
+    ('vmovntps', 'EVEX'): dict(pp=0),  # db says 66; SDM: EVEX.NP.0F.W0 2B
+    ('shrd', 'LEGACY'): dict(pp=0),    # db: "66 0F AC /r ib" for rv/mv; SDM: 0F AC (66 only as the operand-size prefix of the 16-bit form)
+    ('vpmovmskb', 'layout'): True,
+    ('vcvtph2psx', 'tt'): 'hv',        # db says qv; SDM (AVX512-FP16): Half tuple (m64/m128/m256 source)     # db layout [RVM] for a two-operand instruction; SDM: ModRM:reg(w), ModRM:r/m(r)
+}
+
+# explicit operands that name one register: (kind or 'v' for the rv-sized accumulator, encoding id)
+FIXED_REGS = {'al': ('K_GP8', 0), 'ax': ('K_GP16', 0), 'eax': ('K_GP32', 0), 'rax': ('K_GP64', 0), 'axv': ('v', 0), 'cl': ('K_GP8', 1), 'dx': ('K_GP16', 2)}
+
 class Skip(Exception):
     pass
 
@@ -39,8 +52,10 @@ def parse_operand(tok):
     deco = set(re.findall(r'\{(\w+)\}', t))
     t = re.sub(r'\{\w+\}', '', t).strip()
     t = t.replace('~', '')
-    if t.startswith('<') or t in ('al', 'ax', 'eax', 'rax', 'cl', 'dx', 'axv', 'dxv', '1', 'st(0)', 'st(i)', 'es', 'cs', 'ss', 'ds', 'fs', 'gs'):
+    if t.startswith('<') or t in ('dxv', 'st(0)', 'st(i)', 'es', 'cs', 'ss', 'ds', 'fs', 'gs'):
         raise Skip('implicit/fixed operand ' + t)
+    if t in FIXED_REGS: return dict(alts=[('fixedreg', t)], deco=deco)
+    if t == '1': return dict(alts=[('const1', t)], deco=deco)
     alts = []
     for a in t.split('/'):
         a = a.strip()
@@ -65,7 +80,7 @@ def parse_op_string(op):
     layout = m.group(1).strip().replace('_', '')
     toks = m.group(2).split()
     r = dict(layout=layout, enc='E_LEGACY', pp=0, map=0, w=0, l=0, opcode=None, digit=-1, has_modrm=0, modrm_mode='any', imm=[], is4=False, fixed=[], rexw=False, opreg=False,
-             vl_token=None, w_token=None, pv=False)
+             vl_token=None, w_token=None, pv=False, p66=False)
     i = 0
     PP = {'NP': 0, '66': 1, 'F3': 2, 'F2': 3, 'P0': 0}
     MAP = {'0F': 1, '0F38': 2, '0F3A': 3, 'MAP5': 5, 'MAP6': 6, 'MAP8': 8, 'MAP9': 9, 'MAPA': 10, 'MAP10': 10}
@@ -90,8 +105,10 @@ def parse_op_string(op):
         while i < len(toks):
             t = toks[i]
             if t == 'NP': i += 1
-            elif t in ('66', 'F2', 'F3') and i + 1 < len(toks) and (toks[i + 1] in ('0F', 'REX.W') or r['opcode'] is None and re.fullmatch(r'[0-9A-F]{2}', toks[i + 1] or '') and toks[i+1] == '0F'):
-                r['pp'] = PP[t]; i += 1
+            elif t in ('66', 'F2', 'F3') and i + 1 < len(toks) and r['opcode'] is None and (toks[i + 1] in ('0F', 'REX.W', '66', 'F2', 'F3') or re.fullmatch(r'[0-9A-F]{2}(\+[ri])?', toks[i + 1])):
+                if t == '66' and toks[i + 1] in ('F2', 'F3'): r['p66'] = True
+                else: r['pp'] = PP[t]
+                i += 1
             elif t == 'REX.W': r['rexw'] = True; i += 1
             elif t == '0F' and r['opcode'] is None:
                 r['map'] = 1; i += 1
@@ -99,6 +116,7 @@ def parse_op_string(op):
                     r['map'] = 2 if toks[i] == '38' else 3; i += 1
             else:
                 break
+    if i + 1 < len(toks) and toks[i] == '67' and toks[i + 1] == '8D': i += 1; r['pp'] = 1   # db erratum: lea r16 is 66 8D /r (66 comes from the operand size)
     # opcode byte
     if i >= len(toks): raise Skip('no opcode')
     m = re.fullmatch(r'([0-9A-F]{2})(\+[ri])?', toks[i])
@@ -175,15 +193,28 @@ def build_form(name, o, var, gsz, vsz, modes, extra):
     if o['w_token'] == 'y': f['w'] = 1 if gsz == 8 else 0
     if o['vl_token']: f['l'] = {16: 0, 32: 1, 64: 2}[vsz]
     if o['enc'] == 'E_LEGACY':
-        if gsz is not None: f['osize'] = gsz if gsz in (2, 8) else 0
+        if o['p66']: f['osize'] = 2
+        if gsz is not None: f['osize'] = gsz if gsz in (2, 8) else f['osize']
         if o['rexw']: f['w'] = 1; f['osize'] = 8 if gsz is None else f['osize']
     if gsz == 8 or o['rexw'] or (o['enc'] != 'E_LEGACY' and f['w'] == 1 and any(a[0][1] in ('r64',) for a in var)): f['modes'] &= 2
     layout = o['layout']
     roles = {'R': 'R_REG', 'M': 'R_RM', 'V': 'R_VVVV', 'S': 'R_IS4'}
     imm_specs = list(o['imm'])
     li = 0; mem_seen = False
+    nregmem = sum(1 for (alt, deco) in var if alt[0] in ('reg', 'mem'))
+    if len(layout) > nregmem and layout.replace('V', '', 1) and len(layout) - 1 == nregmem and 'V' in layout and (name, 'layout') in DB_ERRATA:
+        layout = layout.replace('V', '', 1)
     for (alt, deco) in var:
         kind, tok = alt
+        if kind == 'const1':
+            f['ops'].append(('K_IMM', 'R_NONE', 0, 1)); continue
+        if kind == 'fixedreg':
+            k, rid = FIXED_REGS[tok]
+            if k == 'v':
+                if gsz is None: raise Skip('axv without size group')
+                k = {2: 'K_GP16', 4: 'K_GP32', 8: 'K_GP64'}[gsz]
+            if k == 'K_GP64': f['modes'] &= 2
+            f['ops'].append((k, 'R_NONE', 0, rid)); continue
         if kind == 'imm':
             if tok == 'imm4': raise Skip('imm4')
             nb = IMM_SIZES.get(tok)
@@ -194,7 +225,9 @@ def build_form(name, o, var, gsz, vsz, modes, extra):
             if spec != nb: raise Skip('imm size mismatch')
             if f['imm_bytes']: raise Skip('two immediates')
             f['imm_bytes'] = spec
-            f['ops'].append(('K_IMM', 'R_IMM', spec))
+            # sign-extended to the operand size (value must survive the extension) or a plain field of that width
+            sext = tok in ('imms8', 'imms32') or (tok == 'immv' and gsz == 8) or (tok in ('imm8',) and False)
+            f['ops'].append(('K_IMM', 'R_IMM', spec, -2 if sext else -1))
             continue
         if o['opreg']:
             role = 'R_OPREG'
@@ -202,6 +235,7 @@ def build_form(name, o, var, gsz, vsz, modes, extra):
             if li >= len(layout): raise Skip('layout shorter than operands')
             role = roles.get(layout[li])
             if role is None: raise Skip('layout letter ' + layout[li])
+            if role == 'R_REG' and o['digit'] >= 0: role = 'R_RM'   # "[R] .. /7": the register is in ModRM.rm (mod=11)
             li += 1
         if kind == 'reg':
             if tok == 'rv': k = {2: 'K_GP16', 4: 'K_GP32', 8: 'K_GP64'}[gsz]
@@ -212,7 +246,7 @@ def build_form(name, o, var, gsz, vsz, modes, extra):
             else: k = REG_KINDS[tok]
             if k == 'K_GP64': f['modes'] &= 2
             if role == 'R_RM' and o['modrm_mode'] == 'mem': raise Skip('reg alt in mem-only modrm')
-            f['ops'].append((k, role, 0))
+            f['ops'].append((k, role, 0, -1))
         else:
             if role != 'R_RM': raise Skip('memory operand not in rm position')
             if o['modrm_mode'] == 'reg': raise Skip('mem alt in reg-only modrm')
@@ -224,13 +258,14 @@ def build_form(name, o, var, gsz, vsz, modes, extra):
             elif tok == 'mxxx': sz = {16: 4, 32: 8, 64: 16}[vsz]
             elif tok == 'mxxy': sz = {16: 8, 32: 16, 64: 32}[vsz]
             else: sz = MEM_SIZES[tok]
-            f['ops'].append(('K_MEM', role, sz))
+            f['ops'].append(('K_MEM', role, sz, -1))
         if 'kz' in deco: f['flags'] = ['F_K', 'F_Z']
         elif 'k' in deco: f['flags'] = ['F_K']
+    if (name, o['enc'][2:]) in DB_ERRATA: f.update(DB_ERRATA[(name, o['enc'][2:])])
     if imm_specs: raise Skip('imm bytes without imm operand')
     if o['is4'] and not any(op[1] == 'R_IS4' for op in f['ops']): raise Skip('is4 without S')
     if f['enc'] == 'E_EVEX':
-        tt = extra.get('tt')
+        tt = DB_ERRATA.get((name, 'tt'), extra.get('tt'))
         if mem_seen:
             f['disp8_shift'] = disp8_shift(tt, f, vsz)
     if f['modes'] == 0: raise Skip('no mode')
@@ -244,23 +279,26 @@ def disp8_shift(tt, f, vsz):
     memsz = [op[2] for op in f['ops'] if op[0] == 'K_MEM'][0]
     if tt is None: raise Skip('evex mem form without tt')
     tt = tt.lower()
-    if tt == 'fv': n = vl
-    elif tt == 'hv': n = vl // 2
-    elif tt == 'fvm': n = vl
-    elif tt in ('t1s', 't1f', 't1s8', 't1s16', 't2', 't4', 't8', 't1_4x'):
-        # N is the size of the memory access for these tuple types
-        n = memsz
-    elif tt == 'hvm': n = vl // 2
-    elif tt == 'qvm': n = vl // 4
+    if tt in ('fv', 'fvm', 'fm'): n = vl
+    elif tt in ('hv', 'hvm'): n = vl // 2
+    elif tt in ('qv', 'qvm'): n = vl // 4
     elif tt == 'ovm': n = vl // 8
     elif tt == 'm128': n = 16
-    elif tt == 'dup': n = {16: 8, 32: 32, 64: 64}[vl]
-    elif tt == 'quarter' or tt == 'qv': n = vl // 4
+    elif tt in ('dup', 'movddup'): n = {16: 8, 32: 32, 64: 64}[vl]
+    elif tt in ('t1s', 't1f', 't1', 't2', 't4', 't8'):
+        # Tuple1 scalar/fixed and Tuple2/4/8: N is the size of the memory access, except the expand/compress family
+        # (T1S with a full-vector memory operand), where N is the element size.
+        if memsz <= 8 or tt != 't1s': n = memsz
+        elif re.match(r'vp(expand|compress)b', f['name']): n = 1
+        elif re.match(r'vp(expand|compress)w', f['name']): n = 2
+        else: n = 8 if w else 4
     else: raise Skip('tuple type ' + tt)
     if n <= 0 or (n & (n - 1)): raise Skip('disp8 N ' + str(n))
     return int(math.log2(n))
 
 # ------------------------------------------------------------------------------------------------------------------------
+# instruction ids asmjit defines (the DB knows a few instructions asmjit does not implement; those are listed as skipped)
+KNOWN_IDS = set(m.group(1) for m in re.finditer(r'^\s*kId([A-Za-z0-9_]+)\b', open(os.path.join(REPO, 'asmjit', 'x86', 'x86globals.h')).read(), re.M))
 groups = collections.OrderedDict()   # (name, kinds signature) -> [forms]
 skipped = collections.Counter(); nrec = 0; ngen = 0
 for g in db['instructions']:
@@ -276,11 +314,38 @@ for g in db['instructions']:
         except Exception as e:
             skipped['generator error: %s' % type(e).__name__] += 1
             continue
+        if forms and (forms[0]['name'][0].upper() + forms[0]['name'][1:]) not in KNOWN_IDS:
+            skipped['instruction has no asmjit id'] += 1; continue
         ngen += 1
         for f in forms:
-            key = (f['name'], tuple(op[0] if op[0] != 'K_MEM' else 'K_MEM%d' % op[2] for op in f['ops']), 'E' if f['enc'] == 'E_EVEX' else 'L', bool(f['flags']))
+            key = (f['name'], tuple(op[0] if op[0] != 'K_MEM' else 'K_MEM%d' % op[2] for op in f['ops']))
             f['record'] = rec[al[0]] + ' :: ' + rec.get('op', '')
             groups.setdefault(key, []).append(f)
+
+# ret/retf imm16 with imm == 0 may be emitted as the operand-less form (same meaning)
+for nm in ('ret', 'retf'):
+    if (nm, ('K_IMM',)) in groups and (nm, ()) in groups:
+        for f in groups[(nm, ())]:
+            g = dict(f); g['ops'] = [('K_IMM', 'R_NONE', 0, 0)]
+            groups[(nm, ('K_IMM',))].append(g)
+# mov between the accumulator and an absolute address has the moffs encodings (A0..A3), which are not generated: excluded
+for key, forms in groups.items():
+    if key[0] == 'mov' and any(k.startswith('K_MEM') for k in key[1]) and any(k.startswith('K_GP') for k in key[1]):
+        for f in forms: f['flags'] = list(f['flags']) + ['F_NOABS_ACC']
+
+# Known findings (see /verif/known_findings.jsonl): while open, the EVEX-encoded region of these groups is split off into
+# a companion harness carrying known=<id>; the rest of the group is still proved.
+KF_EVEX = {'vmpsadbw': ('D10', False)}
+for _n in ('vpdpbssd', 'vpdpbssds', 'vpdpbsud', 'vpdpbsuds', 'vpdpbuud', 'vpdpbuuds', 'vpdpwsud', 'vpdpwsuds', 'vpdpwusd', 'vpdpwusds', 'vpdpwuud', 'vpdpwuuds'):
+    KF_EVEX[_n] = ('D11', True)   # only groups with a memory operand
+# Groups left out, with the reason (listed in forms_gen.json)
+EXCLUDED_GROUPS = {('xchg', ('K_GP64', 'K_GP64')): 'xchg rax, rax is emitted as 90 (nop), a semantic alias outside the record syntax',
+                   ('xchg', ('K_GP32', 'K_GP32')): 'accumulator alias handling (xchg eax, eax must not be 90 in 64-bit mode) is checked by hand-written harness instead',
+                   ('xchg', ('K_GP16', 'K_GP16')): 'same as above'}
+excluded = []
+for k in list(groups):
+    if k in EXCLUDED_GROUPS:
+        excluded.append(dict(inst=k[0], kinds=list(k[1]), reason=EXCLUDED_GROUPS[k])); del groups[k]
 
 def cname(s): return re.sub(r'[^A-Za-z0-9]', '_', s)
 def inst_id(name): return 'x86::Inst::kId' + name[0].upper() + name[1:]
@@ -293,7 +358,7 @@ for key, forms in groups.items():
     tab = 'kForms_%d' % idx
     rows = []
     for f in forms:
-        ops = ', '.join('{%s, %s, %d}' % op for op in f['ops']) or '{0,0,0}'
+        ops = ', '.join('{%s, %s, %d, %d}' % op for op in f['ops']) or '{0,0,0,-1}'
         rows.append('  {%s, %s, %d, %d, 0x%02X, %d, %d, %d, %d, %d, %d, {%s}, %d, %d, %s, %d, {%s}}' % (
             inst_id(name), f['enc'], f['pp'], f['map'], f['opcode'], f['digit'], f['has_modrm'], f['w'], f['l'], f['osize'], len(f['ops']), ops,
             f['imm_bytes'], f['disp8_shift'], '|'.join(f['flags']) or '0', len(f['fixed']), ', '.join('0x%02X' % b for b in f['fixed']) or '0'))
@@ -304,17 +369,30 @@ for key, forms in groups.items():
     for mode, bit in (('64', 2), ('32', 1)):
         sel = [i for i, f in enumerate(forms) if f['modes'] & bit]
         if not sel: continue
-        fn = 'h_f%s_%s_%s_%d' % (mode, cname(name), sig, idx)
+        fn = 'h_f%s_%s_%s' % (mode, cname(name), sig)
+        has_mem = any(k.startswith('K_MEM') for k in key[1])
+        kf = KF_EVEX.get(name)
+        if kf and kf[1] and not has_mem: kf = None
+        if kf and not any(forms[i]['enc'] == 'E_EVEX' for i in sel): kf = None
         if len(sel) == len(forms):
-            harn.append('HARNESS %s() { vf::run_forms<%s>(vf::%s, %d); }' % (fn, 'true' if mode == '64' else 'false', tab, len(forms)))
+            tabn, cnt = tab, len(forms)
         else:
-            sub = '%s_m%s' % (tab, mode)
-            hdr.append('static const Form %s[] = { %s };' % (sub, ', '.join('%s[%d]' % (tab, i) for i in sel)))
-            harn.append('HARNESS %s() { vf::run_forms<%s>(vf::%s, %d); }' % (fn, 'true' if mode == '64' else 'false', sub, len(sel)))
-        meta.append(dict(fn=fn, inst=name, mode=mode, enc=forms[0]['enc'], has_mem=any(k.startswith('K_MEM') for k in key[1]), nforms=len(sel), records=sorted(set(forms[i]['record'] for i in sel))))
+            tabn, cnt = '%s_m%s' % (tab, mode), len(sel)
+            hdr.append('static const Form %s[] = { %s };' % (tabn, ', '.join('%s[%d]' % (tab, i) for i in sel)))
+        x64 = 'true' if mode == '64' else 'false'
+        rec = dict(inst=name, mode=mode, enc='+'.join(sorted(set(forms[i]['enc'] for i in sel))), has_mem=has_mem, nforms=len(sel), records=sorted(set(forms[i]['record'] for i in sel)))
+        if kf:
+            harn.append('#if KF_%s\nHARNESS %s() { vf::run_forms<%s>(vf::%s, %d, 1); }\nHARNESS %s_kf_%s() { vf::run_forms<%s>(vf::%s, %d, 2); }\n#else\nHARNESS %s() { vf::run_forms<%s>(vf::%s, %d); }\n#endif' % (
+                kf[0], fn, x64, tabn, cnt, fn, kf[0], x64, tabn, cnt, fn, x64, tabn, cnt))
+            meta.append(dict(rec, fn=fn)); meta.append(dict(rec, fn='%s_kf_%s' % (fn, kf[0]), known=kf[0]))
+        else:
+            harn.append('HARNESS %s() { vf::run_forms<%s>(vf::%s, %d); }' % (fn, x64, tabn, cnt))
+            meta.append(dict(rec, fn=fn))
     idx += 1
 hdr.append('}  // namespace vf')
 open(os.path.join(HERE, 'forms_gen.h'), 'w').write('\n'.join(hdr) + '\n' + '\n'.join(harn) + '\n')
-json.dump(dict(records_total=nrec, records_generated=ngen, harnesses=meta, skipped=dict(skipped.most_common())), open(os.path.join(HERE, 'forms_gen.json'), 'w'), indent=0)
+json.dump(dict(records_total=nrec, records_generated=ngen, excluded_groups=excluded, harnesses=meta, skipped=dict(skipped.most_common())), open(os.path.join(HERE, 'forms_gen.json'), 'w'), indent=0)
 print('records %d, generated %d, groups %d, harnesses %d' % (nrec, ngen, len(groups), len(meta)))
-for k, v in skipped.most_common(40): print('  skipped %4d  %s' % (v, k))
+try:
+    for k, v in skipped.most_common(40): print('  skipped %4d  %s' % (v, k))
+except BrokenPipeError: pass
